@@ -7,6 +7,15 @@ BASELINE_OFF = "for m in $(cat /w/out/gomods.txt); do MF=$(cd /repo/$m && . /w/o
 
 # id -> (level text, level_note, technique)
 CLAIMED = {
+ "C01": ("structural analysis of the affinity-key table over all paths: allowed writers, no re-binding of a bound key, BIND/UNBIND bookkeeping only on the success path of the matching command with keys from reply/request and the connection of the slot the call ran on, request-key extraction exactly for configured BOUND/UNBIND calls, bound-slot lookup returns the home slot exactly when READY and another slot only with fallback, bound lookup precedes load-based selection, and the refresh swap re-keys/purges every connection-indexed table",
+         "history-level statements (which picker gRPC uses, 'until an UNBIND completes') are not decided; the Shutdown retire point is outside the property",
+         "static analysis: who-may-write/call + reaching-condition truth tables + provenance on go/ssa"),
+ "C03": ("structural analysis of pool growth/shrinkage: creation/removal call sites and the exact guards on every chain leading to a creation, refusal while a connection is idle/connecting, growth-triggering pick is told to wait, placement at maxSize, removal only of a completed refresh's old connection, minimum size by the first configuration only, and the maxSize comparison made in the creating critical section (check-then-act)",
+         "the numeric invariant |pool| <= maxSize over all histories follows from the in-critical-section guard plus who-may-create; the induction is not machine-checked",
+         "static analysis: who-may-call + reaching-condition truth tables + lock-state facts on go/ssa"),
+ "C08": ("structural analysis of the stand-in table: writers and exact insert/reuse guards (reuse before create), stand-in value = returned slot from the current picker's READY snapshot, purge conditions as truth-table equivalences (stand-in leaves READY / home becomes READY), fallback writes nothing but the stand-in table, the selection cannot refuse a non-empty snapshot, grow the pool or lock, swap re-keys the table",
+         "temporal stickiness/return-home over histories needs C04's republishing as well; not separately decided",
+         "static analysis: reaching-condition truth tables + effect summaries + provenance on go/ssa"),
  "C02": ("pairing analysis of the active-stream counter over all paths: who may increment/decrement, exactly one increment of the returned slot per placing path and none otherwise, no exit of Pick after a placement except the hand-over of the slot with its completion closure, the closure's unconditional first effect is one decrement of that slot, the refresh swap keeps the slot object and counters, pickers are built from READY entries only, and the least-busy scan replaces/keeps its minimum consistently with the count comparison",
          "assumes gRPC calls Done at most once per successful pick; numeric minimality under concurrent increments on different pickers and 'returns to zero' as arithmetic are consequences of the pairing, not separately computed",
          "static analysis: who-may-call/write + avoid-set reaching conditions + provenance on go/ssa"),
